@@ -84,6 +84,13 @@ def observe(cfg, variant=0, start=0):
         elif kind == "cutoff":
             cv = CutoffSplitter(np.array(cfg["cuts"]), fh=fh, window_length=cfg["wl"])
         arg = y if variant % 2 == 0 else y.index
+        if variant % 3 == 1:
+            # the splitter object has been used before, on a longer series: nothing of that may stick
+            longer = pd.Series(np.arange(len(y) + 3, dtype=float), index=pd.RangeIndex(start, start + len(y) + 3))
+            try:
+                cv.get_n_splits(longer), list(cv.get_cutoffs(longer)), list(cv.split(longer))
+            except Exception:
+                pass
         splits = [{"train": [int(i) for i in tr], "test": [int(i) for i in te]}
                   for tr, te in cv.split(arg)]
         cutoffs = [int(c) for c in cv.get_cutoffs(arg)]
